@@ -4,7 +4,7 @@ from tools import chan, vlib
 # the three stale-waker findings (two outstanding sends / re-polled send / dropped woken sender)
 # were repaired by /repo commit 904d17adb85 and are no longer matched: a stranded sender is a
 # VIOLATION again
-KEY_CLOSE = "mpsc/close_this_sender/receiver-not-woken"
+# the close_this_sender finding was repaired by /repo commit fdb5498e919: no key is matched any more
 
 
 class C16(vlib.Spec):
@@ -12,7 +12,7 @@ class C16(vlib.Spec):
     props_vo = "theories/Props/C16.vo"
     theorems = ["C16_fifo_exactly_once", "C16_history_faithful", "C16_closure_consistent",
                 "C16_no_strand", "C16_waiting_implies_runnable",
-                "C16_no_rx_strand", "C16_no_rx_strand_refuted"]
+                "C16_no_rx_strand"]
     crate, group, binary = "h_chan", "dfir", "h_chan"
     imports = ("From Coq Require Import List NArith.\nImport ListNotations.\n"
                "From HV Require Import Chan.Base Chan.ModelMpsc Chan.ModelMpscChk.")
@@ -45,13 +45,7 @@ class C16(vlib.Spec):
         return chan.shrink_mpsc(case)
 
     def finding_key(self, case, res):
-        cl = chan.mpsc_class(case)
-        # only the strand clauses, and only when the implementation did exactly what the model did
-        if res.get("obs") != cl["obs"]:
-            return None
-        if cl["rx_stranded"] and cl["closed_senders"] and not cl["stranded"]:
-            return KEY_CLOSE
-        return None
+        return None  # no known finding left: every stranded state is a VIOLATION
 
     def nontrivial(self, case, res):
         obs = res.get("obs", [])
